@@ -33,9 +33,13 @@ Definition idx_same (m r : iindex) : bool :=
 Fixpoint count_z (v : Z) (l : list Z) : Z :=
   match l with [] => 0 | x :: l' => (if x =? v then 1 else 0) + count_z v l' end.
 (* C15: no value occurs more often in the dense content than the stored common *)
+(* (evaluated by the call-by-value VM: the count of the common value is computed once, and every DISTINCT value of the
+   dense content is tested once - same meaning as testing every cell) *)
+Definition distinct_z (l : list Z) : list Z := fold_left (fun acc x => if memZ x acc then acc else x :: acc) l [].
 Definition most_frequent_b (idx : iindex) : bool :=
   let flat := concat (dense_rows idx) in
-  forallb (fun v => count_z v flat <=? count_z (common idx) flat) flat.
+  let c := count_z (common idx) flat in
+  forallb (fun v => count_z v flat <=? c) (distinct_z flat).
 
 (* entry-wise operations are specified on the entries themselves *)
 Definition entrywise (o : op) : bool :=
@@ -53,7 +57,7 @@ Definition model_step (c : scase) : res iindex :=
   end.
 
 Definition common_ok (o : op) (m r : iindex) : bool :=
-  (common m =? common r) || (may_choose o && most_frequent_b r).
+  if common m =? common r then true else if may_choose o then most_frequent_b r else false.
 
 (* observers: real answer vs model answer (dicts order-free) *)
 Definition obs_same (m r : obs) : bool :=
@@ -126,9 +130,10 @@ Definition chk07 (c : scase) : bool :=
 (* ---------- C15: after a library-chosen normalisation the common is a most frequent value ---------- *)
 Definition chk15 (c : scase) : bool :=
   wf_b (s_before c) &&
-  (negb (lib_chosen (s_op c)) ||
-   match s_after c with Ok r => most_frequent_b r | Err _ => true end &&
-   match model_step c with Ok m => most_frequent_b m | Err _ => true end).
+  (if lib_chosen (s_op c)
+   then match s_after c with Ok r => most_frequent_b r | Err _ => true end &&
+        match model_step c with Ok m => most_frequent_b m | Err _ => true end
+   else true).
 
 (* diagnostics: which conjunct failed, and what the model says *)
 Definition explain (c : scase) :=
